@@ -111,3 +111,57 @@ func VerifH_C11_RootEntry() {
 	verifrt.Reach("root")
 	verifrt.Assert(m.Match(vWire(q)), "the root entry matches every name")
 }
+
+func vLower(b []byte) []byte {
+	o := make([]byte, len(b))
+	for i, c := range b {
+		o[i] = byte(verifrt.Ite('A' <= c && c <= 'Z', int(c)+32, int(c)))
+	}
+	return o
+}
+
+// VerifH_C11_AddText: the textual rule syntax: optional "domain:" / "full:" prefix, case-insensitive
+// entries, FQDN dot optional; a domain entry matches itself and its sub-domains, a full entry only itself.
+func VerifH_C11_AddText() {
+	verifrt.Unwind(60)
+	kind := verifrt.Choose("kind", 3) // 0 bare, 1 domain:, 2 full:
+	l1 := verifrt.BytesN("l1", 1+verifrt.Choose("l1.len", 2))
+	l2 := verifrt.BytesN("l2", 1)
+	for _, c := range append(append([]byte(nil), l1...), l2...) {
+		verifrt.Assume(c != '.' && c != ':')
+	}
+	rule := []byte([]string{"", "domain:", "full:"}[kind])
+	rule = append(rule, l1...)
+	rule = append(rule, '.')
+	rule = append(rule, l2...)
+	if verifrt.Bool("fqdn") {
+		rule = append(rule, '.')
+	}
+	m := NewMixMatcher()
+	err := m.Add(rule)
+	verifrt.Assert(err == nil, "a well-formed rule is accepted")
+	verifrt.Reach("added")
+	e := [][]byte{vLower(l1), vLower(l2)}
+	verifrt.Assert(m.Match(vWire(e)), "an entry matches its own lower-cased name")
+	sub := [][]byte{verifrt.BytesN("sub", 1), e[0], e[1]}
+	verifrt.Assert(m.Match(vWire(sub)) == (kind != 2), "sub-domains match domain entries only")
+	other := [][]byte{e[0], verifrt.BytesN("otld", 1)}
+	if !verifrt.EqBytes(other[1], e[1]) {
+		verifrt.Assert(!m.Match(vWire(other)), "a different TLD does not match")
+	}
+	verifrt.Assert(!m.Match(vWire([][]byte{e[1]})), "the parent domain alone does not match")
+}
+
+// VerifH_C11_AddBadType: an unknown rule type is an error, not silently ignored.
+func VerifH_C11_AddBadType() {
+	m := NewMixMatcher()
+	t := verifrt.BytesN("t", 3)
+	for _, c := range t {
+		verifrt.Assume(c != ':')
+	}
+	rule := append(append([]byte(nil), t...), []byte(":a.b")...)
+	err := m.Add(rule)
+	verifrt.Reach("bad")
+	verifrt.Assert(err != nil, "unknown rule type rejected")
+	verifrt.Assert(m.Len() == 0, "nothing added")
+}
